@@ -1,12 +1,57 @@
-(* Props/C04.v — property theorems only (grows as the proofs land). *)
+(* Props/C04.v — property theorems only. *)
 From Coq Require Import List NArith ZArith.
-From N0 Require Import Base.PyStr Base.PyVal Xpath.Dec Xpath.Token Xpath.Find Xpath.FindProofs.
+From N0 Require Import Base.PyStr Base.PyVal Xpath.Dec Xpath.DecProofs Xpath.Token Xpath.TokenProofs
+  Xpath.Find Xpath.FindProofs Xpath.Write Xpath.SpecProofs Xpath.WalkProofs.
 Import ListNotations.
 
-(* get / first convert every funnelled exception of the resolver into the default:
-   for every fuel, tree and string, the dict-side get never reports one of the four
-   classes the code catches (plus KeyError after the fix). *)
+(* get / first convert every exception of the resolver that the funnel names
+   (Value/Index/Key/Type/SyntaxError) into the default: for every fuel, tree and string
+   (ill-formed included), the dict-side get never reports one of them. *)
 Theorem C04_get_never_funnelled : forall fuel root x rl root' e,
   dict_get fuel root x false rl = Ok (root', LRaise e) -> funnelled e = false.
 Proof. exact dict_get_no_funnelled. Qed.
 Print Assumptions C04_get_never_funnelled.
+
+(* Purity, for every string: the tree a resolver call returns is its input unless the
+   call raised the "mutated" flag, which only the [new()] branch sets (partial: that the
+   flag stays down for new()-free strings is not proved; see DESIGN 5/C04). *)
+Theorem C04_find_pure_partial : forall rl fuel root xs par parv fstr root' m F,
+  find true rl fuel root xs par parv fstr = Ok (root', m, F) -> m = false -> root' = root.
+Proof. exact find_unmutated. Qed.
+Print Assumptions C04_find_pure_partial.
+
+Theorem C04_list_find_pure_partial : forall rl fuel root xs par parv fstr root' m F,
+  lfind rl fuel root xs par parv fstr = Ok (root', m, F) -> m = false -> root' = root.
+Proof. exact lfind_unmutated. Qed.
+Print Assumptions C04_list_find_pure_partial.
+
+Theorem C04_get_pure_partial : forall fuel root x re rl dflt root' r,
+  dict_get_core fuel root x re rl dflt = Ok (root', r) ->
+  dict_lookup_mutates fuel root x rl = false -> root' = root.
+Proof. exact dict_get_core_pure. Qed.
+Print Assumptions C04_get_pure_partial.
+
+(* Misses derived from real paths are total and pure without any flag: an unknown key
+   below a resolved prefix gives IndexError on item access and the default on get/first,
+   the tree unchanged ... *)
+Theorem C04_unknown_key_is_miss :
+  forall fuel root x re rl dflt toks p c kvs y rest k ix,
+  has_path_char x = true -> tokenize x = toks ++ y :: rest ->
+  walk root toks p (Dict c kvs) ->
+  split_name_index y = Ok (k, ix) -> plain_key k -> lookup k kvs = None ->
+  2 * length toks + 1 <= fuel ->
+  dict_get_core fuel root x re rl dflt = Ok (root, if re then LRaise ExIndex else dflt).
+Proof. exact lookup_unknown_key. Qed.
+Print Assumptions C04_unknown_key_is_miss.
+
+(* ... and so does an index out of range. *)
+Theorem C04_out_of_range_is_miss :
+  forall fuel root x re rl dflt toks p c items y rest si z,
+  has_path_char x = true -> tokenize x = toks ++ y :: rest ->
+  walk root toks p (Lst c items) ->
+  split_name_index y = Ok ([], IdxStr si) -> plain_idx si -> n0eval si = EvInt z ->
+  (Z.of_nat (length items) <= z \/ z < - Z.of_nat (length items))%Z ->
+  2 * length toks + 1 <= fuel ->
+  dict_get_core fuel root x re rl dflt = Ok (root, if re then LRaise ExIndex else dflt).
+Proof. exact out_of_range_is_miss. Qed.
+Print Assumptions C04_out_of_range_is_miss.
